@@ -96,6 +96,33 @@ def consumers(data: bytes, addr: int, with_emu: bool = True, exact_emu: bool = F
     return out
 
 
+def call_one(cb: str, data: bytes, addr: int) -> Any:
+    """One consumer alone (same result encoding as consumers())."""
+    from binja_test_mocks.mock_llil import MockLowLevelILFunction
+
+    a = G.arch()
+    try:
+        if cb == "info":
+            info = a.get_instruction_info(bytes(data), addr)
+            return None if info is None else int(info.length)
+        if cb == "text":
+            r = a.get_instruction_text(bytes(data), addr)
+            if r is None:
+                return None
+            toks, ln = r
+            return ("".join(str(getattr(t, "text", t)) for t in toks), int(ln),
+                    str(getattr(toks[0], "text", toks[0])) if toks else "")
+        if cb == "il":
+            ln = a.get_instruction_low_level_il(bytes(data), addr, MockLowLevelILFunction())
+            return None if ln is None else int(ln)
+        from sc62015.pysc62015.emulator import Emulator
+
+        ins = Emulator(_mem(addr, data, 0xC01), reset_on_init=False).decode_instruction(addr)
+        return (str(ins.name()), int(ins.length()))
+    except BaseException as exc:  # noqa: BLE001
+        return ("EXC", _exc_name(exc))
+
+
 def _is_exc(x: Any) -> bool:
     return isinstance(x, tuple) and len(x) == 2 and x[0] == "EXC"
 
@@ -285,7 +312,9 @@ def _hyp_history(seed: int, n: int) -> Report:
     from hypothesis import given, settings, strategies as st, HealthCheck
 
     rep = Report()
-    item = st.tuples(st.binary(min_size=1, max_size=8), st.sampled_from(ADDRS))
+    valid = st.sampled_from([bytes.fromhex(x) for x in ("dc102030aabb", "32dc102030aabb", "30f08010203040", "21fb80102030", "0c123456",
+                                                        "08550800", "32a010", "e90410", "ccf1f2", "0312345f")])
+    item = st.tuples(st.one_of(st.binary(min_size=1, max_size=8), valid), st.sampled_from(ADDRS))
 
     def summary(data: bytes, addr: int) -> Any:
         r = consumers(data, addr)
@@ -298,11 +327,35 @@ def _hyp_history(seed: int, n: int) -> Report:
     def prop(items: List[Tuple[bytes, int]], d: Any) -> None:
         first: Dict[Tuple[bytes, int], Any] = {}
         order = list(items)
+        # near-duplicates: same address, same leading bytes, one later byte changed (a cache keyed on too short a
+        # prefix of the bytes, or on the address alone, answers for the earlier string)
+        for _ in range(d.draw(st.integers(0, 4))):
+            base, baddr = order[d.draw(st.integers(0, len(order) - 1))]
+            base = base + bytes(d.draw(st.integers(0, 3)))  # optionally longer, so that late positions exist
+            pos = d.draw(st.integers(0, len(base) - 1))
+            var = bytearray(base)
+            var[pos] = (var[pos] ^ d.draw(st.integers(1, 255))) & 0xFF
+            order.append((base, baddr))
+            order.append((bytes(var), baddr))
         # history = decode all, then re-decode in a generated permutation order
         for data, addr in order:
             first.setdefault((data, addr), summary(data, addr))
         perm = d.draw(st.permutations(order))
         nt = False
+        # each callback on its own, in a generated order (Binary Ninja may ask for text or IL of one address right after
+        # analysing another): the answer must be the one given in the reference pass above
+        calls: List[Any] = []
+        for data, addr in perm[:8]:
+            for cb in d.draw(st.sampled_from([("text",), ("il",), ("text", "il"), ("info",), ("il", "text", "info"), ("emu", "text")])):
+                got = call_one(cb, data, addr)
+                calls.append([cb, data.hex(), addr])
+                want = first[(data, addr)].get(cb)
+                if got != want:
+                    rep.violate(Violation("history", f"{cb}: " + _where(data),
+                                          "callback invoked on its own after other decodes gives a different result",
+                                          {"kind": "solo-history", "reference_pass": [(x.hex(), a) for x, a in order],
+                                           "calls": list(calls)},
+                                          f"{cb}({data.hex()} @ {addr:#x}) alone={got} reference={want}"))
         for data, addr in perm:
             again = summary(data, addr)
             if again != first[(data, addr)]:
@@ -434,7 +487,7 @@ def run(ctx: Ctx) -> Report:
     tasks = [(i, nshards, ctx.seed, ctx.tier, 0) for i in range(nshards)]
     reports = ctx.pmap(_shard, tasks)
     n_raw = ctx.pick(2000, 30000)
-    n_hist = ctx.pick(150, 2000)
+    n_hist = ctx.pick(800, 8000)
     n_emu = ctx.pick(1600, 16000)
     extra = [("raw", ctx.shard_seed(100 + i), n_raw // 8) for i in range(8)] + \
             [("hist", ctx.shard_seed(200 + i), n_hist // 8) for i in range(8)] + \
@@ -456,6 +509,18 @@ def run(ctx: Ctx) -> Report:
 
 def replay(ctx: Ctx, case: Dict[str, Any]) -> List[Violation]:
     rep = Report()
+    if case.get("kind") == "solo-history":
+        ref: Dict[Any, Any] = {}
+        for hx, addr in case["reference_pass"]:
+            ref.setdefault((hx, addr), consumers(bytes.fromhex(hx), addr))
+        for cb, hx, addr in case["calls"]:
+            got = call_one(cb, bytes.fromhex(hx), addr)
+            want = ref.get((hx, addr), {}).get(cb)
+            if (hx, addr) in ref and got != want:
+                rep.violate(Violation("history", f"{cb}: " + _where(bytes.fromhex(hx)),
+                                      "callback invoked on its own after other decodes gives a different result", case,
+                                      f"{cb}({hx} @ {addr:#x}) alone={got} reference={want}"))
+        return rep.violations
     if case.get("kind") == "emu-history":
         return emu_history_violations(case["ops"])[0]
     if case.get("kind") == "history" and "history" in case:
